@@ -136,6 +136,9 @@ class FakeSocket:
             self.server.on_bytes(data)
         return len(data)
 
+    def sendall(self, data):          # real sockets have it; the unchanged library never calls it
+        self.send(data)
+
     def recv(self, n):
         return self.inbox.read(n)
 
